@@ -1243,3 +1243,203 @@ func (c *Ctx) iterationErrorRule(rule string) {
 	}
 	r.Floor(rule, "iteration callbacks that capture an error", n, 1)
 }
+
+// recursionRule (C14): every recursion of module code is well-founded.
+//
+// Call edges: static calls between module functions, and function → closure it creates (closures handed to the Iterate helpers
+// are called back by them). For every call edge inside a strongly connected component:
+//   - a descent into struct members (the edge's reaching condition tests util.IsStructType) must test the member's type itself,
+//     never a pointer-stripped one: by-value nesting of structs is finite in Go, nesting through pointers is not
+//     (`type Node struct{ Next *Node }` would be followed for ever);
+//   - every other recursive function must be in the table below, with the reason why it terminates.
+func (c *Ctx) recursionRule(rule string) {
+	r := c.R
+	r.Rule(rule, "recursion is well-founded: a recursive descent into struct members is guarded by IsStructType of the member's type as it is (no DerefPtr / Elem in the tested type: by-value struct nesting is finite, nesting through pointers is not); every other recursive cycle is one of the confirmed ones (finite IR / AST / type terms)")
+	confirmed := map[string]string{
+		"generator.AssignmentToString":                    "descends NestStruct.Contents: a finite IR tree built by the builder",
+		"builder.hasSliceLoop":                            "descends NestStruct.Contents: a finite IR tree",
+		"(model.NestStruct).String":                       "descends Contents: a finite IR tree",
+		"(util.ImportNames).TypeName":                     "descends the element/underlying type of a go/types type term",
+		"(util.ImportNames).typeArgs":                     "with TypeName: type arguments of a type term",
+		"util.PkgOf":                                      "descends the element type of pointers/slices",
+		"(*builder.assignmentBuilder).isNameable":         "descends the components of a go/types type term; named types end the descent",
+		"(*builder.assignmentBuilder).qualifier":          "with typeName: a go/types callback",
+		"(*parser.Parser).typeErrorIn":                    "descends embedded interfaces: a finite, acyclic declaration graph (go/types rejects cycles)",
+		"(*parser.Parser).embeddedInterfaces":             "descends embedded interfaces of a declaration",
+		"(*builder.assignmentBuilder).castNode":           "the second call's source is the string result of a Stringer node: no further ladder step applies",
+		"builder.isAddressable":                           "climbs Parent() of a node: the node chain built by the path resolvers is finite",
+		"(*builder.assignmentBuilder).looksInto":          "descends the components of a type term",
+		"(*builder.assignmentBuilder).mentionsUnnameable": "descends the components of a type term",
+	}
+	// graph
+	var fns []*ssa.Function
+	idx := map[*ssa.Function]int{}
+	for _, fn := range c.P.Funcs() {
+		if pkgOf(fn) == nil || !core.InModule(pkgOf(fn)) {
+			continue
+		}
+		idx[fn] = len(fns)
+		fns = append(fns, fn)
+	}
+	type edge struct {
+		to int
+		in ssa.Instruction
+	}
+	adj := make([][]edge, len(fns))
+	for i, fn := range fns {
+		for _, b := range fn.Blocks {
+			for _, in := range b.Instrs {
+				switch x := in.(type) {
+				case *ssa.MakeClosure:
+					if j, ok := idx[x.Fn.(*ssa.Function)]; ok {
+						adj[i] = append(adj[i], edge{j, in})
+					}
+				case ssa.CallInstruction:
+					if callee := x.Common().StaticCallee(); callee != nil {
+						if j, ok := idx[callee]; ok {
+							adj[i] = append(adj[i], edge{j, in})
+						}
+					}
+				}
+			}
+		}
+	}
+	// Tarjan
+	comp := make([]int, len(fns))
+	for i := range comp {
+		comp[i] = -1
+	}
+	low := make([]int, len(fns))
+	num := make([]int, len(fns))
+	on := make([]bool, len(fns))
+	var stack []int
+	counter, ncomp := 0, 0
+	for i := range num {
+		num[i] = -1
+	}
+	var dfs func(v int)
+	dfs = func(v int) {
+		num[v], low[v] = counter, counter
+		counter++
+		stack = append(stack, v)
+		on[v] = true
+		for _, e := range adj[v] {
+			if num[e.to] < 0 {
+				dfs(e.to)
+				if low[e.to] < low[v] {
+					low[v] = low[e.to]
+				}
+			} else if on[e.to] && num[e.to] < low[v] {
+				low[v] = num[e.to]
+			}
+		}
+		if low[v] == num[v] {
+			for {
+				w := stack[len(stack)-1]
+				stack = stack[:len(stack)-1]
+				on[w] = false
+				comp[w] = ncomp
+				if w == v {
+					break
+				}
+			}
+			ncomp++
+		}
+	}
+	for i := range fns {
+		if num[i] < 0 {
+			dfs(i)
+		}
+	}
+	size := map[int]int{}
+	for _, k := range comp {
+		size[k]++
+	}
+	nEdges, nDescents := 0, 0
+	structTest := c.M(true, func(t *core.Term) bool { return t.IsCallTo(fnIsStruct) })
+	strips := func(x *core.Term) bool {
+		return x.IsCallTo(pUtil+"DerefPtr") || x.IsCallTo(pUtil+"Deref") || (x.Kind == "call" && strings.HasSuffix(x.Name, ").Elem"))
+	}
+	inCycle := func(i int, e edge) bool { return comp[e.to] == comp[i] && (size[comp[i]] > 1 || e.to == i) }
+	// pass 1: the guarded descents
+	descent := map[ssa.Instruction]bool{}
+	for i, fn := range fns {
+		for _, e := range adj[i] {
+			if !inCycle(i, e) {
+				continue
+			}
+			if _, isMC := e.in.(*ssa.MakeClosure); isMC {
+				continue
+			}
+			nEdges++
+			d := c.ReachOf(e.in)
+			if len(d) == 0 || !d.Implies(structTest) {
+				continue
+			}
+			descent[e.in] = true
+			nDescents++
+			stripped := ""
+			for _, cj := range d {
+				asIs, bad := false, ""
+				for _, l := range cj {
+					t, pos := c.Canon(l)
+					if !pos || !t.IsCallTo(fnIsStruct) {
+						continue
+					}
+					if t.Args[0].Contains(strips) {
+						bad = t.String()
+					} else {
+						asIs = true
+					}
+				}
+				if !asIs && bad != "" {
+					stripped = bad
+				}
+			}
+			r.Check(rule, sprintf("%s→%s:by-value-descent", FnKey(fn), FnKey(fns[e.to])), c.InstrPos(e.in), stripped == "", "the recursive descent into struct members follows pointers ("+stripped+"): a type that refers to itself through a pointer (`type Node struct{ Next *Node }`) is descended for ever – the run hangs and ends in a stack overflow")
+		}
+	}
+	// pass 2: what remains recursive once the guarded descents are cut must be a confirmed cycle
+	reach := func(from, to int) bool {
+		seen := map[int]bool{}
+		var walk func(v int) bool
+		walk = func(v int) bool {
+			if v == to {
+				return true
+			}
+			if seen[v] {
+				return false
+			}
+			seen[v] = true
+			for _, e := range adj[v] {
+				if comp[e.to] == comp[from] && !descent[e.in] && walk(e.to) {
+					return true
+				}
+			}
+			return false
+		}
+		return walk(from)
+	}
+	for i, fn := range fns {
+		for _, e := range adj[i] {
+			if !inCycle(i, e) || descent[e.in] {
+				continue
+			}
+			if _, isMC := e.in.(*ssa.MakeClosure); isMC {
+				continue
+			}
+			if !reach(e.to, i) {
+				continue // the cycle this edge was on goes through a guarded descent
+			}
+			_, okTable := confirmed[FnKey(fn)]
+			if !okTable {
+				if p := fn.Parent(); p != nil {
+					_, okTable = confirmed[FnKey(p)]
+				}
+			}
+			r.Check(rule, sprintf("%s→%s:confirmed-cycle", FnKey(fn), FnKey(fns[e.to])), c.InstrPos(e.in), okTable, "a recursive call that is neither behind a guarded by-value descent into struct members nor one of the confirmed cycles: its termination has not been argued")
+		}
+	}
+	r.Floor(rule, "recursive call edges examined", nEdges, 5)
+	r.Floor(rule, "by-value struct descents among them", nDescents, 2)
+}
